@@ -83,6 +83,23 @@ claim("C12", "proof",
 
 HOOK_COMMITS.append("89599d9")
 
+claim("C16", "proof",
+      "Coq theorems: Deck construction and tape evaluation with ORACLE clauses compute the denotation when every oracle clause "
+      "answers with its node's value (generalises C01's deck theorem to oracle leaves); the recursive object structure of "
+      "TransformedOracle (one evaluator per coordinate tree + underlying oracle, any nesting) computes the composition with "
+      "the coordinate maps when the coordinate trees are variable-free, with a kernel-checked refutation for free variables; "
+      "wrapping: any context (operations, remap chains) over an oracle that computes e denotes the same function as the context "
+      "over e; the Jacobian product of evalDerivs is the gradient of the composite (Coquelicot chain rule in three variables); "
+      "interval composition is sound and carries the maybe-NaN flag of the coordinate ranges; running the coordinate evaluators "
+      "on pushed tapes (oracle contexts) leaves the answer unchanged (from C05).  Tie: flattened DAG (TransformedOracleClause "
+      "placement) and deck (ORACLE clauses, oracle order) exactly equal to the model's; point values of an ExprOracle (an Oracle "
+      "answering every method with a private Evaluator) against the extracted evaluator tower.  Oracle: the same random context "
+      "over the oracle and over the plain expression: values, gradients at unambiguous points, feature sets, interval soundness, "
+      "nested specialisation bit-identical.  Meshes over oracle trees are not rendered by this check (partial on that clause).",
+      "Trusted: Coq kernel + classical real axioms; extraction; harness ExprOracle; user oracles meet the Oracle contract.",
+      "Coq proof (deck/oracle induction, Coquelicot filterdiff) + extraction-based correspondence",
+      "DESIGN.md section 6, C16")
+
 claim("C17", "proof",
       "Coq theorems about the control flow of Solver::findRoot over an abstract evaluator and abstract arithmetic "
       "(so binary32 is one instance): residual = expression at the final assignment, masked variables never returned, "
